@@ -19,11 +19,25 @@ from tree import Forest  # noqa: E402
 BAD = 0
 
 
+# the real call sites behind the model's sites: 1 and 2 are one call statement with two callees (a polymorphic call), 3 shares the
+# statement id with them but sits in another caller - sites are told apart by the whole triple, not by one component
+TRIPLES = {1: (5, 15, 21), 2: (5, 15, 22), 3: (6, 15, 23)}
+KEY_OF = {v: k for k, v in TRIPLES.items()}
+
+
 def site(k):
     """Model site k -> a real CallSite.  0 is the invalid site (a negative id)."""
     if k == BAD:
         return cs.CallSite(7, -1, 8)
+    if k in TRIPLES:
+        return cs.CallSite(*TRIPLES[k])
     return cs.CallSite(k, 10 + k, 20 + k)
+
+
+def key_of(s):
+    if s.has_negative():
+        return BAD
+    return KEY_OF.get((s.caller_id, s.call_stmt_id, s.callee_id), s.caller_id)
 
 
 SITE_BACK = {}
@@ -36,10 +50,7 @@ def mk_path(p):
 def back(cp):
     out = []
     for s in cp.path:
-        if s.has_negative():
-            out.append(BAD)
-        else:
-            out.append(s.caller_id)
+        out.append(key_of(s))
     return out
 
 
@@ -54,8 +65,7 @@ def project(pm):
         if node.is_terminal:
             term.append(list(prefix))
         for elem, child in node.children.items():
-            k = BAD if elem.has_negative() else elem.caller_id
-            walk(child, prefix + [k])
+            walk(child, prefix + [key_of(elem)])
     walk(pm.trie.root, [])
     return paths, tpaths, sorted(nodes), sorted(term)
 
